@@ -2,6 +2,7 @@ package main
 
 import (
 	"encoding/binary"
+	"strings"
 	"errors"
 	"fmt"
 
@@ -125,6 +126,9 @@ func (s *store) exec(o op) (res string, detail string) {
 					<-ch
 				}
 			}
+		case "BOOT":
+			id := nodeIDs[o.N]
+			err = s.db.SaveBootstrapInfo(id.Shard, id.Replica, mkBootstrap(o))
 		case "REMNODE":
 			id := nodeIDs[o.N]
 			err = s.db.RemoveNodeData(id.Shard, id.Replica)
@@ -148,6 +152,107 @@ func (s *store) exec(o op) (res string, detail string) {
 		return "err", err.Error()
 	}
 	return "ok", ""
+}
+
+func mkBootstrap(o op) pb.Bootstrap {
+	return pb.Bootstrap{Join: o.A == 1, Type: pb.StateMachineType(o.B),
+		Addresses: map[uint64]string{1: fmt.Sprintf("a%d", o.C), 2: fmt.Sprintf("b%d", o.C)}}
+}
+
+// readerEntries reads [low, high) through the REAL LogReader placed on top of
+// the store the way a restart sets it up (marker, then SetRange).
+func (s *store) readerEntries(n int, marker, mterm, length, low, high, maxSize uint64) (string, bool) {
+	id := nodeIDs[n]
+	var es []pb.Entry
+	var err error
+	p := vh.Catch(func() {
+		lr := hooks.NewLogReader(s.db, id.Shard, id.Replica)
+		if marker > 0 {
+			if e := lr.ApplySnapshot(marker, mterm); e != nil {
+				panic(e)
+			}
+		}
+		lr.SetRange(marker+1, length)
+		es, err = lr.Entries(low, high, maxSize)
+	})
+	if p != "" {
+		return "panic: " + p, false
+	}
+	if err != nil {
+		return "err: " + err.Error(), false
+	}
+	var out []ent
+	for _, e := range es {
+		r, ok := readEnt(e)
+		if !ok {
+			return "corrupt-payload", false
+		}
+		out = append(out, r)
+	}
+	return showEnts(out), true
+}
+
+// bootQuery: GetBootstrapInfo / ListNodeInfo in canonical form
+func (s *store) bootQuery(o op) string {
+	switch o.Kind {
+	case "GB":
+		id := nodeIDs[o.N]
+		var b pb.Bootstrap
+		var err error
+		if p := vh.Catch(func() { b, err = s.db.GetBootstrapInfo(id.Shard, id.Replica) }); p != "" {
+			return "panic"
+		}
+		if errors.Is(err, raftio.ErrNoBootstrapInfo) {
+			return "none"
+		}
+		if err != nil {
+			return "err"
+		}
+		join := 0
+		if b.Join {
+			join = 1
+		}
+		if len(b.Addresses) == 0 {
+			return fmt.Sprintf("%d %d -1", join, b.Type)
+		}
+		var tag uint64
+		if _, e := fmt.Sscanf(b.Addresses[1], "a%d", &tag); e != nil || len(b.Addresses) != 2 ||
+			b.Addresses[2] != fmt.Sprintf("b%d", tag) {
+			return fmt.Sprintf("%d %d corrupt-addresses", join, b.Type)
+		}
+		return fmt.Sprintf("%d %d %d", join, b.Type, tag)
+	case "LNI":
+		var l []raftio.NodeInfo
+		var err error
+		if p := vh.Catch(func() { l, err = s.db.ListNodeInfo() }); p != "" {
+			return "panic"
+		}
+		if err != nil {
+			return "err"
+		}
+		seen := map[int]int{}
+		extra := ""
+		for _, ni := range l {
+			found := false
+			for i, id := range nodeIDs {
+				if id.Shard == ni.ShardID && id.Replica == ni.ReplicaID {
+					seen[i]++
+					found = true
+				}
+			}
+			if !found {
+				extra += fmt.Sprintf(" ?%d.%d", ni.ShardID, ni.ReplicaID)
+			}
+		}
+		var out []string
+		for i := range nodeIDs {
+			for k := 0; k < seen[i]; k++ {
+				out = append(out, fmt.Sprint(i))
+			}
+		}
+		return "[" + strings.Join(out, " ") + "]" + extra
+	}
+	return "?"
 }
 
 // entry read back from the store -> (index, term, tag, len); ok=false when the
@@ -214,19 +319,25 @@ func (s *store) query(o op) (raw string, canon string) {
 		}
 		st := fmt.Sprintf("st=%d,%d,%d", rs.State.Term, rs.State.Vote, rs.State.Commit)
 		raw = fmt.Sprintf("%s first=%d count=%d", st, rs.FirstIndex, rs.EntryCount)
-		first, count := rs.FirstIndex, rs.EntryCount
-		if count > 0 && first < o.A+1 {
-			cut := o.A + 1 - first
-			if cut >= count {
-				count = 0
-			} else {
-				first, count = o.A+1, count-cut
+		// canonical form: what the REAL LogReader makes of the answer on a restart
+		// (marker at the snapshot index the state was read for, then SetRange)
+		var first, last uint64
+		if p := vh.Catch(func() {
+			lr := hooks.NewLogReader(s.db, id.Shard, id.Replica)
+			if o.A > 0 {
+				if err := lr.ApplySnapshot(o.A, 1); err != nil {
+					panic(err)
+				}
 			}
+			lr.SetRange(rs.FirstIndex, rs.EntryCount)
+			first, last = lr.GetRange()
+		}); p != "" {
+			return raw, st + " logreader-panic"
 		}
-		if count == 0 {
+		if last < first {
 			return raw, st + " count=0"
 		}
-		return raw, fmt.Sprintf("%s first=%d count=%d", st, first, count)
+		return raw, fmt.Sprintf("%s first=%d count=%d", st, first, last-first+1)
 	case "GS":
 		var ss pb.Snapshot
 		var err error
